@@ -245,7 +245,7 @@ func (fr *Frame) newError(msg *Term) *Term {
 	enc := fr.enc
 	e := enc.declare("err", "Any")
 	enc.assume(Not(Eq(e, Leaf("any_nil"))), "constructed error is non-nil")
-	f := enc.w.ufunc("errmsg", []string{"Any"}, "String")
+	f := enc.w.ufunc("spec_errmsg", []string{"Any"}, "String")
 	enc.assume(Eq(A(f, e), msg), "error text")
 	return e
 }
@@ -647,6 +647,17 @@ func (fr *Frame) assignTargets(x ast.Expr, env *Env) []assignTarget {
 	w := fr.enc.w
 	switch e := x.(type) {
 	case *ast.SelectorExpr:
+		if id, ok := e.X.(*ast.Ident); ok && env.scope != nil {
+			if _, bound := env.lookup(id.Name); !bound {
+				if pkg := env.scope.Aliases[id.Name]; pkg != nil {
+					if v, ok := pkg.Scope().Lookup(e.Sel.Name).(*types.Var); ok {
+						name := "G." + v.Pkg().Path() + "." + v.Name()
+						env.heap(env.state, name, w.sortOf(v.Type()))
+						return []assignTarget{{name: name, whole: true}}
+					}
+				}
+			}
+		}
 		base := env.tr(e.X)
 		pt, ok := base.Ty.Underlying().(*types.Pointer)
 		if !ok {
@@ -705,6 +716,24 @@ func (fr *Frame) assignTargets(x ast.Expr, env *Env) []assignTarget {
 	case *ast.CallExpr:
 		if id, ok := e.Fun.(*ast.Ident); ok && len(e.Args) == 1 {
 			switch id.Name {
+			case "all":
+				// all(T.f): field f of every object of struct type T
+				sel, ok := e.Args[0].(*ast.SelectorExpr)
+				if !ok {
+					env.fail("all(T.f) expected")
+				}
+				t, err := resolveTypeExpr(sel.X, env.scope, w.P)
+				if err != nil {
+					env.fail("%v", err)
+				}
+				s := w.structSort(t)
+				j := s.fieldIndex(sel.Sel.Name)
+				if j < 0 {
+					env.fail("no field %s", sel.Sel.Name)
+				}
+				name := heapFieldName(s, j)
+				env.heap(env.state, name, arraySort("Int", s.Fields[j].Sort))
+				return []assignTarget{{name: name, whole: true}}
 			case "boxes":
 				t, err := resolveTypeExpr(e.Args[0], env.scope, w.P)
 				if err != nil {
@@ -801,7 +830,7 @@ func (fr *Frame) appendOp(ci ssa.CallInstruction, c *ssa.CallCommon) *Term {
 		nbase := enc.define("app_base", "Int", Ite(fits, base, nref))
 		arr := Select(h, base)
 		for i, e := range elems {
-			arr = Store(arr, Add(off, Add(ln, IntLit(int64(i)))), fr.val(e))
+			arr = Store(arr, Sidx(off, Add(ln, IntLit(int64(i)))), fr.val(e))
 		}
 		// in place when it fits, otherwise a fresh backing array holding a copy (same offset: the offset
 		// is not observable)
@@ -826,7 +855,7 @@ func (fr *Frame) appendOp(ci ssa.CallInstruction, c *ssa.CallCommon) *Term {
 	qd := A("((" + q.Op + " Int))")
 	enc.assume(A("forall", qd, Implies(And(Le(IntLit(0), q), Lt(q, Add(off, ln))), Eq(Select(narr, q), Select(oldArr, q)))), "append: old elements kept")
 	enc.assume(A("forall", qd, Implies(And(Le(IntLit(0), q), Lt(q, tl)),
-		Eq(Select(narr, Add(off, Add(ln, q))), Select(tArr, Add(A("s_off", t), q))))), "append: new elements copied")
+		Eq(Select(narr, Sidx(off, Add(ln, q))), Select(tArr, Sidx(A("s_off", t), q))))), "append: new elements copied")
 	// elements beyond the new length keep their old value when appending in place
 	enc.assume(A("forall", qd, Implies(And(fits, Le(Add(off, Add(ln, tl)), q)), Eq(Select(narr, q), Select(oldArr, q)))), "append: rest untouched in place")
 	st.Set(hname, enc.define("app_heap", arraySort("Int", arrS), Ite(Eq(tl, IntLit(0)), h, Store(h, nbase, narr))))
@@ -857,7 +886,7 @@ func (fr *Frame) copyOp(ci ssa.CallInstruction, c *ssa.CallCommon) *Term {
 	q := Leaf(fmt.Sprintf("q_copy_%d", w.fresh()))
 	qd := A("((" + q.Op + " Int))")
 	dOff, sOff := A("s_off", d), A("s_off", s)
-	enc.assume(A("forall", qd, Implies(And(Le(IntLit(0), q), Lt(q, n)), Eq(Select(narr, Add(dOff, q)), Select(sArr, Add(sOff, q))))), "copy: elements copied")
+	enc.assume(A("forall", qd, Implies(And(Le(IntLit(0), q), Lt(q, n)), Eq(Select(narr, Sidx(dOff, q)), Select(sArr, Sidx(sOff, q))))), "copy: elements copied")
 	enc.assume(A("forall", qd, Implies(Or(Lt(q, dOff), Le(Add(dOff, n), q)), Eq(Select(narr, q), Select(dArr, q)))), "copy: rest untouched")
 	st.Set(hname, enc.define("copy_heap", arraySort("Int", arrS), Ite(Eq(n, IntLit(0)), h, Store(h, A("s_base", d), narr))))
 	return n
